@@ -109,6 +109,9 @@ def verify(d):
     return 0 if ok else 1
 
 
+SNAP = None
+
+
 def scratch_run(mdir, props, tier, keep=False):
     """run the checks against one seeded fault entirely in scratch copies (repo worktree + copy of /verif),
     so that several faults can be evaluated in parallel and /repo and /verif stay untouched"""
@@ -128,9 +131,10 @@ def scratch_run(mdir, props, tier, keep=False):
             return {"error": "patch does not apply: " + r.stdout}
         vf = base + "/verif"
         os.makedirs(vf)
+        src = SNAP or VERIF
         for f in ("check", "propcfg.py", "MANIFEST.json", "KNOWN_FINDINGS.txt"):
-            shutil.copy(os.path.join(VERIF, f), vf)
-        shutil.copytree(os.path.join(VERIF, "harness"), vf + "/harness", ignore=shutil.ignore_patterns("target"))
+            shutil.copy(os.path.join(src, f), vf)
+        shutil.copytree(os.path.join(src, "harness"), vf + "/harness", ignore=shutil.ignore_patterns("target"))
         ct = open(vf + "/harness/Cargo.toml").read().replace('path = "/repo"', 'path = "%s"' % wt)
         open(vf + "/harness/Cargo.toml", "w").write(ct)
         env = dict(os.environ)
@@ -156,6 +160,14 @@ def matrix(dirs, props, tier, jobs):
     from concurrent.futures import ThreadPoolExecutor
     out = os.path.join(VERIF, "work", "matrix")
     os.makedirs(out, exist_ok=True)
+    # freeze the machinery: later edits of /verif do not disturb this run
+    global SNAP
+    SNAP = "/tmp/mrun/_snapshot_%d" % os.getpid()
+    shutil.rmtree(SNAP, ignore_errors=True)
+    os.makedirs(SNAP)
+    for f in ("check", "propcfg.py", "MANIFEST.json", "KNOWN_FINDINGS.txt"):
+        shutil.copy(os.path.join(VERIF, f), SNAP)
+    shutil.copytree(os.path.join(VERIF, "harness"), SNAP + "/harness", ignore=shutil.ignore_patterns("target"))
 
     def one(d):
         r = scratch_run(d, props, tier)
@@ -167,6 +179,7 @@ def matrix(dirs, props, tier, jobs):
         return d, r
     with ThreadPoolExecutor(max_workers=jobs) as ex:
         list(ex.map(one, dirs))
+    shutil.rmtree(SNAP, ignore_errors=True)
     return 0
 
 
